@@ -152,11 +152,17 @@ def scenario(run, tape, clock, stores):
         if tape.draw(10) == 9:
             # a save that fails because a value cannot be serialized: nothing may be listed for it, listings keep working
             run.probe('failed_save_in_history')
+            resave = tape.draw(2) == 1 and not by_recorder      # the failing save is a second save of the recording just stored
+            if resave:
+                run.probe('failed_second_save_of_a_stored_recording')
             for name in ('memory', 'file', 's3'):
                 cas = cass[name]
-                r = cas.create_new_recording(cats[i])
-                r.set_data('k', R.D.Unserializable(2))
-                r.add_metadata(copy.deepcopy(md))
+                if resave:
+                    r = cas.get_recording(ids[name][i])          # (its earlier version must stay listed and fetchable)
+                else:
+                    r = cas.create_new_recording(cats[i])
+                    r.add_metadata(copy.deepcopy(md))
+                r.set_data('k2', R.D.Unserializable(2))
                 try:
                     cas.save_recording(r)
                 except Exception:
